@@ -666,6 +666,64 @@ def prevEmptyEndOf (s : BState) (nextLine : Nat) : Except Panic Bool := do
     pure (s.isEmpty l1)
   else pure false
 
+/-- the first half of one iteration of the item loop: one list item, from
+    `let offsets = &state.line_offsets[next_line]` to `state.node.children.push(node)`;
+    result `(state, tight, prev_empty_end)` -/
+def listItem (tok : Tok) (s : BState) (nextLine posAfterMarker : Nat) (prevEmptyEnd tight : Bool) :
+    Except Panic (BState × Bool × Bool) := do
+  let o ← s.off nextLine
+  if o.indentNonspace < 0 then .error .cast else do
+  let initial := o.indentNonspace.toNat + posAfterMarker
+  let ltxt ← liftL (Lines.slice s.src o.lineStart o.lineEnd)
+  let rel ← psub (posAfterMarker + o.firstNonspace) o.lineStart
+  let (indAfter0, fn) ← liftL (Lines.findIndentOf ltxt rel)
+  let lineLen ← psub o.lineEnd o.lineStart
+  let reachedEnd : Bool := fn == lineLen
+  let indentNonspace := initial + indAfter0
+  let indAfter := if reachedEnd then 1 else if indAfter0 > 4 then 1 else indAfter0
+  let indent := initial + indAfter
+  let oldKind := s.nodeKind
+  let oldChildren := s.children
+  let oldTight := s.tight
+  let oldListIndent := s.listIndent
+  let s := { s with nodeKind := .listItem, children := [], listIndent := some s.blkIndent,
+                    blkIndent := indent, tight := true }
+  let s ← s.setOff nextLine
+    { o with firstNonspace := fn + o.lineStart, indentNonspace := (indentNonspace : Int) }
+  let s ← listItemBody tok s nextLine reachedEnd
+  let tight := if ¬ s.tight ∨ prevEmptyEnd then false else tight
+  let prevEmptyEnd ← prevEmptyEndOf s nextLine
+  match s.listIndent with
+  | none => .error .unwrap
+  | some li => do
+    let s := { s with blkIndent := li, listIndent := oldListIndent }
+    let s ← s.setOff nextLine o
+    let s := { s with tight := oldTight }
+    let endLine := s.line
+    let e ← psub endLine 1
+    let r ← s.getMap nextLine e
+    let node : BNode := ⟨s.nodeKind, some r, s.children⟩
+    pure ({ s with nodeKind := oldKind, children := oldChildren ++ [node] }, tight, prevEmptyEnd)
+
+/-- the second half: "Try to check if list is terminated or continued"; `none` = `break`,
+    `some p` = go on with `pos_after_marker = p` -/
+def listContinue (test : Test) (ordered : Bool) (markerChar : Char) (s : BState) (nextLine : Nat) :
+    Except Panic (Option Nat × BState) :=
+  if nextLine ≥ s.lineMax then pure (none, s) else do
+  let ind ← s.lineIndent nextLine
+  if ind < 0 then pure (none, s) else
+  if ind ≥ 4 then pure (none, s) else do
+  let oldLine := s.line
+  let (terminate, s) ← test s
+  let s := { s with line := oldLine }
+  if terminate then pure (none, s) else do
+  let cur ← s.getLine s.line
+  match (if ordered then skipOrdered cur else skipBullet cur) with
+  | none => pure (none, s)
+  | some p => do
+    let mc ← markerCharOf cur p
+    if mc ≠ markerChar then pure (none, s) else pure (some p, s)
+
 /-- `'outer: while next_line < state.line_max { … }` (one list item per iteration);
     result `(next_line, tight, state)` -/
 def listLoop (tok : Tok) (test : Test) (ordered : Bool) (markerChar : Char) :
@@ -673,55 +731,12 @@ def listLoop (tok : Tok) (test : Test) (ordered : Bool) (markerChar : Char) :
   | 0, _, _, _, _, _ => .error .fuel
   | fuel + 1, s, nextLine, posAfterMarker, prevEmptyEnd, tight =>
     if ¬ nextLine < s.lineMax then .ok (nextLine, tight, s) else do
-    let o ← s.off nextLine
-    if o.indentNonspace < 0 then .error .cast else do
-    let initial := o.indentNonspace.toNat + posAfterMarker
-    let ltxt ← liftL (Lines.slice s.src o.lineStart o.lineEnd)
-    let rel ← psub (posAfterMarker + o.firstNonspace) o.lineStart
-    let (indAfter0, fn) ← liftL (Lines.findIndentOf ltxt rel)
-    let lineLen ← psub o.lineEnd o.lineStart
-    let reachedEnd : Bool := fn == lineLen
-    let indentNonspace := initial + indAfter0
-    let indAfter := if reachedEnd then 1 else if indAfter0 > 4 then 1 else indAfter0
-    let indent := initial + indAfter
-    let oldKind := s.nodeKind
-    let oldChildren := s.children
-    let oldTight := s.tight
-    let oldListIndent := s.listIndent
-    let s := { s with nodeKind := .listItem, children := [], listIndent := some s.blkIndent,
-                      blkIndent := indent, tight := true }
-    let s ← s.setOff nextLine
-      { o with firstNonspace := fn + o.lineStart, indentNonspace := (indentNonspace : Int) }
-    let s ← listItemBody tok s nextLine reachedEnd
-    let tight := if ¬ s.tight ∨ prevEmptyEnd then false else tight
-    let prevEmptyEnd ← prevEmptyEndOf s nextLine
-    match s.listIndent with
-    | none => .error .unwrap
-    | some li => do
-      let s := { s with blkIndent := li, listIndent := oldListIndent }
-      let s ← s.setOff nextLine o
-      let s := { s with tight := oldTight }
-      let endLine := s.line
-      let e ← psub endLine 1
-      let r ← s.getMap nextLine e
-      let node : BNode := ⟨s.nodeKind, some r, s.children⟩
-      let s := { s with nodeKind := oldKind, children := oldChildren ++ [node] }
-      let nextLine := s.line
-      if nextLine ≥ s.lineMax then .ok (nextLine, tight, s) else do
-      let ind ← s.lineIndent nextLine
-      if ind < 0 then .ok (nextLine, tight, s) else
-      if ind ≥ 4 then .ok (nextLine, tight, s) else do
-      let oldLine := s.line
-      let (terminate, s) ← test s
-      let s := { s with line := oldLine }
-      if terminate then .ok (nextLine, tight, s) else do
-      let cur ← s.getLine s.line
-      match (if ordered then skipOrdered cur else skipBullet cur) with
-      | none => .ok (nextLine, tight, s)
-      | some p => do
-        let mc ← markerCharOf cur p
-        if mc ≠ markerChar then .ok (nextLine, tight, s)
-        else listLoop tok test ordered markerChar fuel s nextLine p prevEmptyEnd tight
+    let (s, tight, prevEmptyEnd) ← listItem tok s nextLine posAfterMarker prevEmptyEnd tight
+    let nextLine := s.line
+    let (cont, s) ← listContinue test ordered markerChar s nextLine
+    match cont with
+    | none => .ok (nextLine, tight, s)
+    | some p => listLoop tok test ordered markerChar fuel s nextLine p prevEmptyEnd tight
 
 /-- the `for child in state.node.children.iter_mut()` of the tight case -/
 def tightenItems : List BNode → Except Panic (List BNode)
